@@ -201,6 +201,17 @@ func CheckC02(c *Ctx) {
 			}
 			var cnt int64
 			for {
+				if cnt&1023 == 1023 {
+					// a base or supplemental metric changes too, so that conjunctions across groups are visited
+					for tries := 0; tries < 4; tries++ {
+						mI := w.R.Intn(v.N())
+						if me := v.Metrics[mI]; me.Mandatory || me.Group == spec.GSupp {
+							a[mI] = uint8(w.R.Intn(len(me.Values)))
+							probe.SafeSet(o, me.Abv, me.Values[a[mI]])
+							break
+						}
+					}
+				}
 				s, p := probe.SafeVector(o)
 				q, err, pp := api.SafeParse(s)
 				cnt++
@@ -856,6 +867,16 @@ func CheckC07(c *Ctx) {
 			var cnt int64
 			rot := 0
 			for {
+				if cnt&1023 == 1023 {
+					for tries := 0; tries < 4; tries++ {
+						mI := w.R.Intn(v.N())
+						if me := v.Metrics[mI]; me.Mandatory || me.Group == spec.GSupp {
+							a[mI] = uint8(w.R.Intn(len(me.Values)))
+							probe.SafeSet(o, me.Abv, me.Values[a[mI]])
+							break
+						}
+					}
+				}
 				j := foc[0]
 				foc[0] = 0
 				if j == n {
@@ -1306,6 +1327,17 @@ func CheckC16(c *Ctx) {
 					c.Violate(Violation{Kind: "wrong-nomenclature", Version: v.Name, Steps: []Step{{Op: "parse", S: v.Canonical(b)}, {Op: "nomenclature"}}, Expected: want + " for " + v.Canonical(b) + " (reached through a Gray-code walk of Set calls)", Observed: fmt.Sprint(got, p), Detail: map[string]any{"case": "all-configurations"}})
 					if c.nviolA.Load() > 200 {
 						break
+					}
+				}
+				// every 2,048 steps one base or supplemental metric (which must not matter) is changed too
+				if cnt&2047 == 0 {
+					for tries := 0; tries < 4; tries++ {
+						mI := w.R.Intn(v.N())
+						if me := v.Metrics[mI]; me.Mandatory || me.Group == spec.GSupp {
+							a[mI] = uint8(w.R.Intn(len(me.Values)))
+							probe.SafeSet(o, me.Abv, me.Values[a[mI]])
+							break
+						}
 					}
 				}
 				// next configuration: exactly one digit moves by one
